@@ -137,6 +137,98 @@ case("rd-bdd-returns-else", BD, "            manager.drop_edge(f_else);\n       
 case("rd-harmless-reformat", TD, "        if t == u && u == e {", "        if e == u && (u == t) {", M, "ok")
 case("rd-harmless-bcdd-test", BC, "        let tt = t.tag();\n        if tt == EdgeTag::Complemented {\n            let et = e.tag();", "        let t_tag = t.tag();\n        if EdgeTag::Complemented == t_tag {\n            let et = e.tag();", M, "ok")
 
+# ---- atomicity of reference-count updates ----------------------------------------------------------
+M = "OxiddModel.Generated.ObAtomicity"
+IDYN = "crates/oxidd-manager-index/src/terminal_manager/dynamic.rs"
+INODE = "crates/oxidd-manager-index/src/node/fixed_arity.rs"
+PNODE = "crates/oxidd-manager-pointer/src/node/fixed_arity.rs"
+ARCSLAB = "crates/arcslab/src/lib.rs"
+case("at-dyn-retain-load-store", IDYN,
+     "    let old_rc = item.rc.fetch_add(1, Relaxed);\n    if old_rc > (u32::MAX >> 1) {\n        std::process::abort(); // prevent overflow\n    }",
+     "    let old_rc = item.rc.load(Relaxed);\n    if old_rc > (u32::MAX >> 1) {\n        std::process::abort(); // prevent overflow\n    }\n    item.rc.store(old_rc + 1, Relaxed);",
+     M, "fail")  # the seeded defect: increment as separate load and store
+case("at-arcslab-release-load-store", ARCSLAB, "        self.rc.fetch_sub(1, Release)\n",
+     "        let old = self.rc.load(Acquire);\n        self.rc.store(old - 1, Release);\n        old\n", M, "fail")
+case("at-pointer-retain-by-two", PNODE, "if self.rc.fetch_add(1, Relaxed) > (usize::MAX >> 1) {", "if self.rc.fetch_add(2, Relaxed) > (usize::MAX >> 1) {", M, "fail")
+case("at-arcslab-release-relaxed", ARCSLAB, "        self.rc.fetch_sub(1, Release)\n", "        self.rc.fetch_sub(1, Relaxed)\n", M, "fail")
+case("at-arcslab-retain-no-abort", ARCSLAB, "        if self.rc.fetch_add(1, Relaxed) > (usize::MAX >> 1) {\n            std::process::abort();\n        }", "        self.rc.fetch_add(1, Relaxed);", M, "fail")
+case("at-dyn-alias-store", IDYN, "    let old_rc = item.rc.fetch_add(1, Relaxed);", "    let counter = &item.rc;\n    let old_rc = counter.load(Relaxed);\n    counter.store(old_rc + 1, Relaxed);", M, "fail")  # alias of the counter: reported as unparsed
+case("at-dyn-get-edge-no-retain", IDYN, "                unsafe { self.retain(id as usize) };\n                id", "                id", M, "fail")
+case("at-dyn-new-terminal-rc1", IDYN, "                    rc: AtomicU32::new(2),", "                    rc: AtomicU32::new(1),", M, "fail")
+case("at-harmless-inline-check", IDYN,
+     "    let old_rc = item.rc.fetch_add(1, Relaxed);\n    if old_rc > (u32::MAX >> 1) {\n        std::process::abort(); // prevent overflow\n    }",
+     "    // same thing, written like the inner nodes' retain, stronger ordering, extra debug assertion\n    debug_assert!(item.rc.load(Relaxed) > 0);\n    if item.rc.fetch_add(1, std::sync::atomic::Ordering::AcqRel) > (u32::MAX >> 1) {\n        std::process::abort()\n    }",
+     M, "ok")
+
+# ---- apply_ite prologues ---------------------------------------------------------------------------
+M = "OxiddModel.Generated.ObIte"
+case("it-bdd-f-eq-h-or", BDA, "    if f == h {\n        return apply_bin::<M, R, { BDDOp::And as u8 }>(manager, rec, f, g);", "    if f == h {\n        return apply_bin::<M, R, { BDDOp::Or as u8 }>(manager, rec, f, g);", M, "fail")
+case("it-bdd-terminal-f-swapped", BDA, "return Ok(manager.clone_edge(&*if *t.borrow() == True { g } else { h }));", "return Ok(manager.clone_edge(&*if *t.borrow() == True { h } else { g }));", M, "fail")
+case("it-bdd-imp-becomes-impstrict", BDA, "                True => apply_bin::<M, R, { BDDOp::Imp as u8 }>(manager, rec, f, g),", "                True => apply_bin::<M, R, { BDDOp::ImpStrict as u8 }>(manager, rec, f, g),", M, "fail")
+case("it-bdd-g-eq-h-dropped", BDA, "    if g == h {\n        return Ok(manager.clone_edge(&g));\n    }\n    if f == g {\n        return apply_bin::<M, R, { BDDOp::Or", "    if f == g {\n        return apply_bin::<M, R, { BDDOp::Or", M, "fail")  # then the terminal/terminal arm is unsound
+case("it-bdd-cache-key-order", BDA, "        BDDOp::Ite,\n        &[f.borrowed(), g.borrowed(), h.borrowed()],\n    ) {", "        BDDOp::Ite,\n        &[f.borrowed(), h.borrowed(), g.borrowed()],\n    ) {", M, "fail")
+case("it-bdd-ternary-mixed", BDA, "rec.ternary(apply_ite, manager, (ft, gt, ht), (fe, ge, he))?", "rec.ternary(apply_ite, manager, (ft, gt, he), (fe, ge, ht))?", M, "fail")
+case("it-bcdd-tags-test-inverted", BCA, "        return if f.tag() == g.tag() {\n            Ok(not_owned(apply_and(manager, rec, not(&f), not(&h))?)) // f ∨ h", "        return if f.tag() != g.tag() {\n            Ok(not_owned(apply_and(manager, rec, not(&f), not(&h))?)) // f ∨ h", M, "fail")
+case("it-bcdd-terminal-h-tag", BCA, "            return if h.tag() == EdgeTag::None {\n                Ok(not_owned(apply_and(manager, rec, f, not(&g))?)) // f → g", "            return if h.tag() == EdgeTag::Complemented {\n                Ok(not_owned(apply_and(manager, rec, f, not(&g))?)) // f → g", M, "fail")
+case("it-bcdd-xor-loses-negation", BCA, "            not_owned(apply_bin::<M, R, { BCDDOp::Xor as u8 }>(\n                manager, rec, f, g,\n            )?) // f ↔ g", "            apply_bin::<M, R, { BCDDOp::Xor as u8 }>(\n                manager, rec, f, g,\n            )? // f ↔ g", M, "fail")
+case("it-bdd-harmless-rewrite", BDA,
+     "            return Ok(manager.clone_edge(&*if *t.borrow() == True { g } else { h }));\n        }\n    };\n    let (gnode, hnode) = match (manager.get_node(&g), manager.get_node(&h)) {\n        (Node::Inner(gn), Node::Inner(hn)) => (gn, hn),\n        (Node::Terminal(t), Node::Inner(_)) => {\n            return match t.borrow() {\n                True => apply_bin::<M, R, { BDDOp::Or as u8 }>(manager, rec, f, h),\n                False => apply_bin::<M, R, { BDDOp::ImpStrict as u8 }>(manager, rec, f, h),\n            };",
+     "            // flipped test, reordered arms\n            return Ok(manager.clone_edge(&*if *t.borrow() == False { h } else { g }));\n        }\n    };\n    let (gnode, hnode) = match (manager.get_node(&g), manager.get_node(&h)) {\n        (Node::Inner(gn), Node::Inner(hn)) => (gn, hn),\n        (Node::Terminal(c), Node::Inner(_)) => {\n            return match c.borrow() {\n                False => { apply_bin::<M, R, { BDDOp::ImpStrict as u8 }>(manager, rec, f, h) }\n                True => apply_bin::<M, R, { BDDOp::Or as u8 }>(manager, rec, f, h),\n            };",
+     M, "ok")
+case("it-bcdd-harmless-rewrite", BCA,
+     "        return Ok(if g.tag() == h.tag() {\n            manager.clone_edge(&g)\n        } else {\n            not_owned(apply_bin::<M, R, { BCDDOp::Xor as u8 }>(\n                manager, rec, f, g,\n            )?) // f ↔ g\n        });",
+     "        if g.tag() != h.tag() {\n            return Ok(not_owned(apply_bin::<M, R, { BCDDOp::Xor as u8 }>(manager, rec, f, g)?));\n        } else {\n            return Ok(manager.clone_edge(&g));\n        }",
+     M, "ok")
+
+# ---- gc_count / count-cache epoch ------------------------------------------------------------------
+M = "OxiddModel.Generated.ObEpoch"
+IMGR = "crates/oxidd-manager-index/src/manager.rs"
+PMGR = "crates/oxidd-manager-pointer/src/manager.rs"
+CUTIL = "crates/oxidd-core/src/util/mod.rs"
+case("ep-index-inc-dropped", IMGR,
+     "        self.gc_count.fetch_add(1, Relaxed);\n        let guard = AbortOnDrop(\"Garbage collection panicked.\");",
+     "        let guard = AbortOnDrop(\"Garbage collection panicked.\");", M, "fail")  # increment dropped …
+case("ep-pointer-inc-moved-to-end", PMGR,
+     ["        self.gc_count.fetch_add(1, Relaxed);\n        let guard = AbortOnDrop(\"Garbage collection panicked.\");", "        self.gc_ongoing.unlock();\n        guard.defuse();\n        collected"],
+     ["        let guard = AbortOnDrop(\"Garbage collection panicked.\");", "        self.gc_count.fetch_add(1, Relaxed);\n        self.gc_ongoing.unlock();\n        guard.defuse();\n        collected"], M, "fail")
+case("ep-index-inc-both-ends", IMGR, "        self.gc_ongoing.unlock();\n        guard.defuse();", "        self.gc_count.fetch_add(1, Relaxed);\n        self.gc_ongoing.unlock();\n        guard.defuse();", M, "fail")  # the proposed repair: a different protocol than the model's
+case("ep-reorder-no-inc", IMGR, "        *self.gc_count.get_mut() += 1;\n        self.reorder_count += 1;", "        self.reorder_count += 1;", M, "fail")
+case("ep-clear-ignores-vars", CUTIL, "        if epoch != self.epoch || vars != self.vars {", "        if epoch != self.epoch {", M, "fail")
+case("ep-clear-and-instead-of-or", CUTIL, "        if epoch != self.epoch || vars != self.vars {", "        if epoch != self.epoch && vars != self.vars {", M, "fail")
+case("ep-clear-keeps-map", CUTIL, "            self.vars = vars;\n            self.map.clear();", "            self.vars = vars;", M, "fail")
+case("ep-clear-epoch-not-stored", CUTIL, "            self.epoch = epoch;\n            self.vars = vars;", "            self.vars = vars;", M, "fail")
+case("ep-harmless-rewrite", CUTIL, "        let epoch = manager.gc_count();\n        if epoch != self.epoch || vars != self.vars {\n            self.epoch = epoch;\n            self.vars = vars;\n            self.map.clear();\n        }",
+     "        let now = manager.gc_count();\n        if (self.vars != vars) || (self.epoch != now) {\n            self.map.clear();\n            self.vars = vars;\n            self.epoch = now;\n        }", M, "ok")
+case("ep-harmless-gc-seqcst", IMGR, "        self.gc_count.fetch_add(1, Relaxed);\n        let guard", "        self.gc_count.fetch_add(1, std::sync::atomic::Ordering::SeqCst);\n        let guard", M, "ok")
+
+# ---- cache keys of quant / apply_quant / restrict / substitute -------------------------------------
+M = "OxiddModel.Generated.ObKeys"
+case("ky-quant-get-drops-vars", BDA, "            .get(manager, operator, &[f.borrowed(), vars.borrowed()])", "            .get(manager, operator, &[f.borrowed()])", M, "fail")
+case("ky-subst-drops-id", BDA, "        (&[f.borrowed()], &[cache_id]),\n    ) {", "        (&[f.borrowed()], &[]),\n    ) {", M, "fail")
+case("ky-restrict-add-drops-cube", BDA, ".add(manager, BDDOp::Restrict, &[f, vars], res.borrowed());", ".add(manager, BDDOp::Restrict, &[f], res.borrowed());", M, "fail")
+case("ky-apply-quant-operands-swapped", BDA, "        &[f.borrowed(), g.borrowed(), vars.borrowed()],\n    ) {", "        &[g.borrowed(), f.borrowed(), vars.borrowed()],\n    ) {", M, "fail")
+case("ky-from-apply-quant-shared-tag", BD, "                _ if op == BDDOp::Nand as u8 => BDDOp::ExistsNand,", "                _ if op == BDDOp::Nand as u8 => BDDOp::ExistsAnd,", M, "fail")
+case("ky-quant-operator-table", BDA, "        _ if Q == BDDOp::Or as u8 => BDDOp::Exists,", "        _ if Q == BDDOp::Or as u8 => BDDOp::Forall,", M, "fail")
+case("ky-apply-quant-pop-level", BDA, "        crate::set_pop(manager, vars, min_level)", "        crate::set_pop(manager, vars, flevel)", M, "fail")
+case("ky-restrict-cached-as-quant", BDA, "                BDDOp::Restrict,\n                &[f.borrowed(), vars.borrowed()],", "                BDDOp::Exists,\n                &[f.borrowed(), vars.borrowed()],", M, "fail")
+case("ky-harmless-rewrite", BDA,
+     ["    let res = if flevel == vlevel {", "        .add(manager, operator, &[f, vars], res.borrowed());\n\n    Ok(res)\n}\n\n/// Recursively apply the binary operator `OP` to `f` and `g` while quantifying",
+      "            if let Some(res) = manager.apply_cache().get(\n                manager,\n                BDDOp::Restrict,\n                &[f.borrowed(), vars.borrowed()],\n            ) {"],
+     ["    let out = if flevel == vlevel {", "        .add(manager, operator, &[f.borrowed(), vars.borrowed()], out.borrowed());\n\n    Ok(out)\n}\n\n/// Recursively apply the binary operator `OP` to `f` and `g` while quantifying",
+      "            if let Some(res) = manager.apply_cache().get(manager, BDDOp::Restrict, &[f.borrowed(), vars.borrowed()]) {"],
+     M, "ok")
+
+# ---- F64 normalisation -----------------------------------------------------------------------------
+M = "OxiddModel.Generated.ObF64"
+F64RS = "crates/oxidd-rules-mtbdd/src/terminal/f64.rs"
+case("fx-mul-unnormalised", F64RS, "    fn mul(&self, rhs: &Self) -> Self {\n        Self::from(self.0 * rhs.0)", "    fn mul(&self, rhs: &Self) -> Self {\n        Self(self.0 * rhs.0)", M, "fail")  # the seeded defect
+case("fx-div-operator-trait-unnormalised", F64RS, "    fn div(self, rhs: Self) -> F64 {\n        Self::from(self.0 / rhs.0)", "    fn div(self, rhs: Self) -> F64 {\n        F64(self.0 / rhs.0)", M, "fail")
+case("fx-normaliser-forgets-negative-zero", F64RS, "        } else if value.to_bits() == (-0.0f64).to_bits() {\n            0.0\n        } else {", "        } else {", M, "fail")
+case("fx-sub-adds", F64RS, "    fn sub(&self, rhs: &Self) -> Self {\n        Self::from(self.0 - rhs.0)", "    fn sub(&self, rhs: &Self) -> Self {\n        Self::from(self.0 + rhs.0)", M, "fail")
+case("fx-zero-is-negative-zero", F64RS, "    fn zero() -> Self {\n        Self(0.)", "    fn zero() -> Self {\n        Self(-0.0)", M, "fail")
+case("fx-parse-repaired", F64RS, "            _ => Self(f64::from_str(s).ok()?),", "            _ => Self::from(f64::from_str(s).ok()?),", M, "fail")  # the repair of the finding: `f64_parse_unnormalised` must be replaced by the full statement
+case("fx-harmless-rewrite", F64RS, "    fn add(&self, rhs: &Self) -> Self {\n        Self::from(self.0 + rhs.0)\n    }", "    fn add(&self, rhs: &Self) -> Self {\n        // same\n        F64::from( (self.0 + rhs.0) )\n    }", M, "ok")
+
 
 def run(proj, flt):
     gen = os.path.join(proj, "OxiddModel", "Generated")
@@ -150,10 +242,14 @@ def run(proj, flt):
             shutil.copytree(os.path.join(SRC, "crates"), os.path.join(tmp, "crates"))
             p = os.path.join(tmp, file)
             s = open(p, encoding="utf-8").read()
-            if s.count(old) != count:
-                results.append((name, expect, "SETUP", f"pattern occurs {s.count(old)}x"))
+            olds, news = (old, new) if isinstance(old, (list, tuple)) else ([old], [new])  # several replacements in one file
+            bad = [o for o in olds if s.count(o) != count]
+            if bad:
+                results.append((name, expect, "SETUP", f"pattern occurs {s.count(bad[0])}x"))
                 continue
-            open(p, "w", encoding="utf-8").write(s.replace(old, new))
+            for o, n in zip(olds, news):
+                s = s.replace(o, n)
+            open(p, "w", encoding="utf-8").write(s)
             r = subprocess.run([sys.executable, tr, "--src-root", tmp, "--out-dir", gen], stdout=subprocess.PIPE, stderr=subprocess.STDOUT)
             if r.returncode != 0:
                 results.append((name, expect, "fail", "extractor: " + r.stdout.decode()[-200:].strip()))
